@@ -501,6 +501,22 @@ def c_ops(w, path):
 
 # ---- B2 -------------------------------------------------------------------------------------------------------------
 
+def _flows(f, src, dst, depth=4):
+    """dst is assigned (directly or through a field of a checked-arithmetic pair / plain copies) from src"""
+    if src == dst:
+        return True
+    if depth == 0:
+        return False
+    for b in f.blocks:
+        for s_ in b['s']:
+            d = s_.get('d') or {}
+            if d.get('l') == dst and not d.get('p') and s_.get('r', {}).get('rv') == 'use':
+                pl = op_place(s_['r']['o'])
+                if pl is not None and _flows(f, src, pl['l'], depth - 1):
+                    return True
+    return False
+
+
 def consts_in(f, ops=('Sub', 'Add')):
     out = []
     for b in f.blocks:
@@ -540,7 +556,21 @@ def b2(rep, w):
     r.check(adds == [1] and subs == [], 'patch_offset_at: jump = len - offset, patches code[pos], code[pos + 1]', 'patch_offset_at arithmetic changed: adds %s subs %s' % (adds, subs), po.loc())
     # try_statement passes pos and pos + 2 (second short) and both are relative to the ip after the two operands
     ts = w.require_fn(P + 'try_statement', 'C04')
-    adds = [v for (op, v) in consts_in(ts, ('Add',))]
+    # only the additions that compute a position handed to patch_offset_at (other arithmetic in try_statement is not address arithmetic)
+    adds = []
+    torg = origins(ts)
+    for bi, t in ts.calls():
+        if callee_name(t) != P + 'patch_offset_at':
+            continue
+        pl = op_place(t['args'][1])
+        for b in ts.blocks:
+            for s_ in b['s']:
+                rr = s_.get('r', {})
+                if rr.get('rv') == 'bin' and rr['op'].startswith('Add') and op_const(rr['b']) is not None and pl is not None:
+                    dl = s_['d']['l']
+                    # the sum (or its checked `.0`) is the argument
+                    if dl == pl['l'] or any(q[0] == ('local', dl) for q in torg.get(pl['l'], ())) or _flows(ts, dl, pl['l']):
+                        adds.append(op_const(rr['b'])['v'])
     r.check(adds == [short], 'try_statement: second handler operand at first + %s' % adds, 'the second PushExcHandler operand is patched at +%s (operand width %d)' % (adds, short), ts.loc())
     pe = w.require_fn(VM + 'push_exc_handler_impl', 'C04')
     offs = [bi for bi, t in pe.calls() if strip_generics(callee_name(t) or '').endswith('::offset')]
